@@ -11,6 +11,13 @@ AUDIT = os.path.join(HERE, "tables", "panic_audit.json")
 
 
 def spec_from_json(j):
+    if "any" in j:
+        from engine.rules import AnyOf
+        return AnyOf(*[spec_from_json(x) for x in j["any"]], name=j.get("name"))
+    if "boolis" in j:
+        from engine.rules import BoolIs
+        calls, value = j["boolis"][0], j["boolis"][1]
+        return BoolIs(calls, value, args=j["boolis"][2] if len(j["boolis"]) > 2 else (), name=j.get("name"))
     if "cmp" in j:
         a, b = j["cmp"][0], j["cmp"][1]
         return Cmp(a, b, pass_op=j["cmp"][2] if len(j["cmp"]) > 2 else None, name=j.get("name"))
